@@ -8,10 +8,152 @@ import schedcases
 
 MANIFEST = {
  "category": "proof",
- "text": "Over Mro/Sched.v, for every dependency relation and every history (unbounded; crashes, failures and restarts are arbitrary resets of jobs that are not done): C05_done_stable (a recorded completion is never lost), C05_done_never_restarted (a job whose completion was recorded before an interruption is never started again in any continuation), C05_restart_converges (from any state a restart can leave - every job idle or done - there is a continuation that completes every job, starts nothing that was done and everything else exactly once), C05_no_stall. The final outputs are Mro/Sem.v's function of the program, which knows no schedule or interruption. Tie (crash-point enumeration on the real mrp+mrjob): for generated programs mrp is interrupted at the k-th recorded event plus a small offset, k ranging over the whole run - SIGKILL of mrp alone (jobs orphaned), SIGKILL of mrp and its jobs, SIGTERM and SIGINT (handled) - the stale lock is removed after SIGKILL as documented, and mrp is restarted with the same invocation. Checked: the restart completes, the final outs equal those of the uninterrupted run, the merged history of all incarnations (completion = the completion marker on disk, not the process's own end record) is accepted by Sched.valid_trace in the kernel (no job with a recorded completion is executed again, nothing starts before its dependencies), and a handled signal leaves no _lock.",
- "note": "Proof about the scheduler model + crash-point enumeration against it. Crash points are sampled at event boundaries with millisecond offsets (before/after a job starts, after its outputs, after the completion marker and before mrp noticed it, during fork expansion and post-processing), not at every syscall. Goroutine interleavings inside mrp, filesystem visibility delays and pid reuse are not modelled. Interruption during VDR is exercised by the C04/C14 checks' modes, not here.",
+ "text": "Over Mro/Sched.v, for every dependency relation and every history (unbounded; crashes, failures and restarts are arbitrary resets of jobs that are not done): C05_done_stable (a recorded completion is never lost), C05_done_never_restarted (a job whose completion was recorded before an interruption is never started again in any continuation), C05_restart_converges (from any state a restart can leave - every job idle or done - there is a continuation that completes every job, starts nothing that was done and everything else exactly once), C05_no_stall. The final outputs are Mro/Sem.v's function of the program, which knows no schedule or interruption. Tie (crash-point enumeration on the real mrp+mrjob): for generated programs mrp is interrupted at the k-th recorded event plus a small offset, k ranging over the whole run - SIGKILL of mrp alone (jobs orphaned), SIGKILL of mrp and its jobs, SIGTERM and SIGINT (handled) - the stale lock is removed after SIGKILL as documented, and mrp is restarted with the same invocation. Checked: the restart completes, the final outs equal those of the uninterrupted run, the merged history of all incarnations (completion = the completion marker on disk, not the process's own end record) is accepted by Sched.valid_trace in the kernel (no job with a recorded completion is executed again, nothing starts before its dependencies), and a handled signal leaves no _lock. Syscall-level crash points (mrp killed entering its K-th rename/symlink/mkdir/unlink, on a pipeline with file outputs): the restart completes, the rewritten outs and the contents of every file they name equal the uninterrupted run's, and no stage with a recorded completion runs again.",
+ "note": "Proof about the scheduler model + crash-point enumeration against it. Crash points are sampled at event boundaries with millisecond offsets (before/after a job starts, after its outputs, after the completion marker and before mrp noticed it, during fork expansion and post-processing), and, on a fixed pipeline with file-typed final outputs (corpus/c05_postprocess), at mrp's own rename / symlink / mkdir / unlink system calls (strace injection of SIGKILL on entering the K-th such call of a thread, K enumerated), which covers post-processing (move to outs/, link back, rewrite of _outs). Goroutine interleavings inside mrp, filesystem visibility delays and pid reuse are not modelled. Interruption during VDR is exercised by the C04/C14 checks' modes, not here.",
  "technique": "Coq invariant and convergence proofs over all histories of a scheduler state machine + crash-point enumeration on real mrp with kernel-evaluated trace acceptance",
 }
+
+
+SYSCALL_CLASSES = (("symlink", "symlink,symlinkat"), ("rename", "rename,renameat,renameat2"),
+                   ("mkdir", "mkdir,mkdirat"), ("unlink", "unlink,unlinkat"))
+
+
+def syscall_crashes(ctx, quick):
+    """mrp killed at its own filesystem effects (strace -f -b execve: only mrp's
+    threads are traced; SIGKILL injected on entering the K-th rename / symlink /
+    mkdir / unlink of a thread), on a pipeline whose final outputs are files, so
+    that post-processing (move to outs/, link back, rewrite of _outs) is among
+    the crash points.  Then the stale lock is removed and mrp restarted."""
+    import glob
+    import json
+    import re
+    import shutil
+    import subprocess
+    import time
+    if not shutil.which("strace"):
+        ctx.oblige("syscall-level crash points: strace available", False, "strace not found")
+        return {}
+    src = os.path.join(lib.VERIF, "corpus", "c05_postprocess")
+    d = os.path.join(ctx.scratch, "pp")
+    os.makedirs(d, exist_ok=True)
+    open(os.path.join(d, "pipeline.mro"), "w").write(open(os.path.join(src, "pipeline.mro")).read().replace("@DIR@", src))
+    mrp = os.path.join(ctx.mart, "bin", "mrp")
+    env = dict(os.environ, MROPATH=d, C05PP_LOG=os.path.join(d, "runs.log"))
+    base = [mrp, "pipeline.mro"]
+    opts = ["--localcores=4", "--localmem=4", "--disable-ui"]
+
+    def outs_of(ps):
+        try:
+            o = json.load(open(os.path.join(d, ps, "TOP", "fork0", "_outs")))
+        except Exception as e:
+            return "unreadable: %s" % e, {}
+        contents = {}
+
+        def walk(v):
+            if isinstance(v, str) and v.startswith("/"):
+                try:
+                    contents[v.replace("/" + ps + "/", "/PS/")] = open(v).read()
+                except Exception as e:
+                    contents[v.replace("/" + ps + "/", "/PS/")] = "unreadable: %s" % type(e).__name__
+            elif isinstance(v, list):
+                for x in v:
+                    walk(x)
+            elif isinstance(v, dict):
+                for x in v.values():
+                    walk(x)
+        walk(o)
+        return json.dumps(o, sort_keys=True).replace("/" + ps + "/", "/PS/"), contents
+
+    p = subprocess.run(base + ["ref"] + opts, cwd=d, env=env, capture_output=True, text=True, timeout=120)
+    ref, refc = outs_of("ref")
+    ok = p.returncode == 0 and '"report": "' in ref and all("unreadable" not in c for c in refc.values())
+    ctx.oblige("syscall-level crash points: the uninterrupted reference run of corpus/c05_postprocess completes with its files under outs/", ok,
+               (p.stdout + p.stderr)[-600:] + ref)
+    if not ok:
+        return {}
+    scen = []
+    kmax = {"symlink": 10, "rename": 10, "mkdir": 14 if quick else 40, "unlink": 8 if quick else 30}
+    for cname, calls in SYSCALL_CLASSES:
+        for k in range(1, kmax[cname] + 1):
+            scen.append({"class": cname, "calls": calls, "k": k, "psid": "x%s%d" % (cname, k)})
+
+    def pgone(pgid, maxs=10.0):
+        t0 = time.time()
+        while time.time() - t0 < maxs:
+            alive = False
+            for e in os.listdir("/proc"):
+                if e.isdigit():
+                    try:
+                        st = open("/proc/%s/stat" % e).read()
+                        if int(st[st.rindex(")") + 2:].split()[2]) == pgid:
+                            alive = True
+                            break
+                    except Exception:
+                        pass
+            if not alive:
+                return
+            time.sleep(0.01)
+
+    def run(s):
+        ps = s["psid"]
+        tr = os.path.join(d, ps + ".trace")
+        cmd = ["strace", "-f", "-b", "execve", "-o", tr, "-e", "trace=" + s["calls"],
+               "-e", "inject=%s:signal=SIGKILL:when=%d" % (s["calls"], s["k"])] + base + [ps] + opts
+        pr = subprocess.Popen(cmd, cwd=d, env=env, stdout=subprocess.PIPE, stderr=subprocess.STDOUT, text=True, start_new_session=True)
+        try:
+            out1, _ = pr.communicate(timeout=120)
+        except subprocess.TimeoutExpired:
+            os.killpg(pr.pid, 9)
+            out1, _ = pr.communicate()
+        s["exit0"] = pr.returncode
+        pgone(pr.pid)
+        last = ""
+        try:
+            lines = [l for l in open(tr) if not re.match(r"^\d+ +[-+]", l)]
+            last = lines[-1].strip()[:220] if lines else ""
+        except OSError:
+            pass
+        s["killed_at"] = last
+        s["killed"] = pr.returncode != 0 and "Pipestance completed successfully" not in out1
+        done_before = {st: bool(glob.glob(os.path.join(d, ps, "TOP", st, "fork0", "chnk0*", "_complete"))) for st in ("MAKE", "COUNT")}
+        log = os.path.join(d, "runs_%s.log" % ps)
+        try:
+            os.remove(os.path.join(d, ps, "_lock"))
+        except OSError:
+            pass
+        env2 = dict(env, C05PP_LOG=log)
+        p2 = subprocess.run(base + [ps] + opts, cwd=d, env=env2, capture_output=True, text=True, timeout=120)
+        s["exit1"] = p2.returncode
+        s["tail1"] = (p2.stdout + p2.stderr)[-700:]
+        s["outs"], s["contents"] = outs_of(ps)
+        reruns = open(log).read() if os.path.exists(log) else ""
+        s["rerun_of_completed"] = [st for st, dn in done_before.items() if dn and ("start " + st) in reruns]
+        return s
+    pipelib.parallel(run, scen, par=8)
+    stats = {"scenarios": len(scen), "killed_live_mrp": 0, "by_class": {}}
+    init_rx = r"(open \S*/_(mrosource|invocation|versions|tags|uuid|timestamp|jobmode): no such file|ParseError: [^\n]* at \S*/_mrosource|unexpected end of JSON input|is not a pipestance directory)"
+    for s in scen:
+        if not s["killed"]:
+            continue
+        stats["killed_live_mrp"] += 1
+        stats["by_class"][s["class"]] = stats["by_class"].get(s["class"], 0) + 1
+        rep = {"program": "corpus/c05_postprocess", "syscall_class": s["calls"], "when": s["k"], "killed_entering": s["killed_at"],
+               "restart_exit": s["exit1"], "restart_tail": s["tail1"][-400:], "outs": s["outs"], "reference_outs": ref}
+        where = "mrp killed entering %s" % (s["killed_at"] or "?")
+        if s["exit1"] != 0 and re.search(init_rx, s["tail1"]):
+            ctx.fail("killed_during_pipestance_initialisation", "mrp was killed while creating the pipestance directory; the restart refuses it (%s)" % where, rep)
+        elif s["exit1"] != 0:
+            ctx.fail("restart_does_not_complete", "corpus/c05_postprocess: %s; the restart exits %d" % (where, s["exit1"]), rep)
+        elif s["outs"] != ref or s["contents"] != refc:
+            ctx.fail("outs_differ_from_uninterrupted_run", "corpus/c05_postprocess: %s; the restarted pipestance completes with outputs %s, the uninterrupted run has %s" % (
+                where, s["outs"], ref), rep)
+        elif s["rerun_of_completed"]:
+            ctx.fail("completed_job_executed_again_or_started_early", "corpus/c05_postprocess: %s; %s had a recorded completion and ran again" % (
+                where, ",".join(s["rerun_of_completed"])), rep)
+    ctx.oblige("syscall-level crash points ran (%d scenarios, %d killed a live mrp; post-processing renames and links among them)" % (
+        len(scen), stats["killed_live_mrp"]),
+        stats["by_class"].get("symlink", 0) >= 3 and stats["by_class"].get("rename", 0) >= 3)
+    return stats
 
 MODES = ("killgroup", "killgroup", "kill", "term", "int")
 
@@ -83,6 +225,8 @@ def check(ctx, args):
         init_rx = r"(open \S*/_(mrosource|invocation|versions|tags|uuid|timestamp|jobmode): no such file|ParseError: [^\n]* at \S*/_mrosource|unexpected end of JSON input|is not a pipestance directory)"
         if last["exit"] != 0 and incs[0]["events"] == 0 and s["mode"] in ("kill", "killgroup") and re.search(init_rx, last["tail"]):
             fail("killed_during_pipestance_initialisation", "mrp was killed while writing the top-level metadata files; the restart refuses the half-initialised directory")
+        elif last["exit"] != 0 and incs[0]["events"] == 0 and s["mode"] in ("term", "int") and re.search(init_rx, last["tail"]):
+            fail("terminated_during_pipestance_initialisation", "mrp caught the signal while creating the pipestance directory; the restart refuses the half-initialised directory")
         elif last.get("timed_out") and r.get("stuck") and all(j["pid"] == 0 for j in r["stuck"]) \
                 and s["mode"] == "killgroup":
             rep["stuck"] = r["stuck"]
@@ -110,10 +254,12 @@ def check(ctx, args):
             ctx.fail(cls, "%s: event %s %s not enabled (mode %s at event %d)" % (s["prog"], kind, jid, s["mode"], s["k"]),
                      {"replay_dir": os.path.dirname(rp)})
     ctx.oblige("crash-point enumeration ran (%d scenarios, %d interrupted a live mrp)" % (len(scen), nint), nint > 0 and okc)
+    sysstats = syscall_crashes(ctx, quick)
     ctx.samples = [{k: v for k, v in s.items() if k not in ("res", "dir")} for s in scen[:5]]
     ctx.coverage.update({
         "evaluations": len(scen), "distinct_nontrivial": nint,
         "rule": "scenario = (program, event index, offset, signal mode); non-trivial = the signal hit a live mrp (it had not exited yet)",
         "traces_validated_against_impl": len(cases), "modes": modes, "programs": nprog, "shape_distribution": stats,
+        "syscall_level_crash_points": sysstats,
     })
     return ctx.finish("proof")
